@@ -9,6 +9,7 @@ import base64
 import contextlib
 import inspect
 import logging
+import struct
 import sys
 import threading
 import time
@@ -417,7 +418,18 @@ def _maybe_attach_shm(
     except (ValueError, UnicodeDecodeError):
         _logger.warning("Ignoring malformed SHM metadata: name=%r, size=%r", shm_name_bytes, shm_size_bytes)
         return None
-    return ShmSegment.attach(shm_name, shm_size, track=False)
+    try:
+        return ShmSegment.attach(shm_name, shm_size, track=False)
+    except (OSError, ValueError, struct.error):
+        # The name is client-chosen: it may not exist, may be unusable as a
+        # segment name, or may name something that is not one of our segments.
+        # An unusable advertisement is treated like a malformed one — letting
+        # the error escape would end the serve loop with the peer still
+        # waiting for a reply.
+        _logger.warning(
+            "Ignoring unattachable SHM segment: name=%r, size=%r", shm_name_bytes, shm_size_bytes, exc_info=True
+        )
+        return None
 
 
 class _ConnectionShm:
